@@ -140,17 +140,25 @@ def eval_case(case):
         batch = read_input_json(os.path.join(work, 'inputs', fn),
                                 os.path.join(work, 'out.json'))
         for sim in batch._simulations:
+            # a splitting simulation covers all its error rates at once
+            sim_rates = ([sim.error_rate] if hasattr(sim, 'error_rate')
+                         else [float(x) for x in sim.error_rates])
+            dec_obj = sim.decoder if hasattr(sim, 'decoder') else sim.decoders[0]
+            want_cls = 'SplittingSimulation' if a['method'] == 'splitting' else 'DirectSimulation'
+            if type(sim).__name__ != want_cls:
+                fail('method', f'{type(sim).__name__} built for method {a["method"]}')
             d = sim.error_model.direction
             if abs(sum(d) - 1) > 1e-12:
                 fail('direction_sums_to_one', f'{d}')
             ax = 'XYZ'.index(a['bias'])
             if d[ax] + 1e-15 < max(d):
                 fail('direction_matches_bias', f'{d} for bias {a["bias"]}')
-            if type(sim.code).__name__ != a['code'] or type(sim.decoder).__name__ != a['decoder']:
-                fail('class_names', f'{type(sim.code).__name__}/{type(sim.decoder).__name__}')
-            got[(tuple(sim.code.size), tuple(round(float(x), 12) for x in d),
-                 sim.error_model.params.get('deformation_name'),
-                 round(float(sim.error_rate), 9))] += 1
+            if type(sim.code).__name__ != a['code'] or type(dec_obj).__name__ != a['decoder']:
+                fail('class_names', f'{type(sim.code).__name__}/{type(dec_obj).__name__}')
+            for rate in sim_rates:
+                got[(tuple(sim.code.size), tuple(round(float(x), 12) for x in d),
+                     sim.error_model.params.get('deformation_name'),
+                     round(float(rate), 9))] += 1
     if got != want:
         missing = want - got
         extra = got - want
@@ -225,7 +233,8 @@ def cli_cases(draw):
                          min_size=1, max_size=4, unique=True))
     args = {'code': code, 'decoder': dec, 'sizes': sizes,
             'bias': draw(st.sampled_from('XYZ')), 'etas': etas,
-            'prob': draw(prob_specs()), 'method': 'direct'}
+            'prob': draw(prob_specs()),
+            'method': draw(st.sampled_from(['direct', 'direct', 'direct', 'splitting']))}
     names = domain.get_class(code).deformation_names
     if names and draw(st.booleans()):
         args['deformation'] = draw(st.sampled_from(names))
